@@ -303,7 +303,7 @@ func (w *c07TmpWorker) Item(idx int, emit func(vf.Violation), st sweep.Stats, sa
 	if c.cancelAfter == 0 {
 		cancel()
 	}
-	deadline := time.After(60 * time.Second)
+	deadline := time.After(5 * time.Minute)
 	closed := false
 	for !closed {
 		select {
@@ -325,7 +325,13 @@ func (w *c07TmpWorker) Item(idx int, emit func(vf.Violation), st sweep.Stats, sa
 	// upstream steps may still be winding down: give them a moment so that a late use of the cleaned-up
 	// temporary store shows up as a crash of this worker rather than being cut off by its exit
 	time.Sleep(20 * time.Millisecond)
+	// the work directory is cleaned up by the pipeline's own goroutine after the stream has closed: wait for
+	// it (no short wall-clock verdict), and call it left behind only if it is still there after two minutes
 	left, _ := os.ReadDir(dir)
+	for i := 0; i < 1200 && len(left) > 0; i++ {
+		time.Sleep(100 * time.Millisecond)
+		left, _ = os.ReadDir(dir)
+	}
 	if len(left) > 0 {
 		emit(vf.Violation{Sig: "temp-storage|left-behind|" + c.name, Detail: fmt.Sprintf("%s: %d entries left in the work directory after the result stream closed", w.Describe(idx), len(left)), Replay: c.name})
 	}
